@@ -71,6 +71,10 @@ func failFuncs() map[string]jet.Func {
 			m["boom"] = 1
 			return reflect.Value{}
 		},
+		// a user function that panics with something that is not an error value
+		"strpanicfn": func(a jet.Arguments) reflect.Value {
+			panic("plain string panic from a user function")
+		},
 		// a jet.Func that tolerates whatever it is handed (also an invalid piped value)
 		"passthru": func(a jet.Arguments) reflect.Value {
 			if a.NumOfArguments() > 0 {
@@ -187,8 +191,8 @@ func (g *c13Gen) tryStmt(inBlockWithContent bool) []*mj.Node {
 		if g.n(0, 9, "goRuntimeError") == 0 {
 			// a Go runtime error (nil map assignment) in a user function: directly inside a try it is a failure of
 			// the body like any other (only Execute itself hands such panics on)
-			fail = &mj.Node{K: "fail", Src: "rtpanicfn()", Class: "function-error"}
-			g.labels["failure:go-runtime-error-in-try"] = true
+			fail = &mj.Node{K: "fail", Src: []string{"rtpanicfn()", "strpanicfn()"}[g.n(0, 1, "panicPayload")], Class: "function-error"}
+			g.labels["failure:go-runtime-error-or-string-panic-in-try"] = true
 		}
 		core = []*mj.Node{mj.Text("reached"), fail, mj.Text("never")}
 		g.labels["body-fails"] = true
